@@ -591,6 +591,25 @@ Theorem c14_bytes_unloaded_offsets : forall rc p e m d x, wf_model e m = true ->
 Proof. intros rc p e m d x Hwf Hd Hx. rewrite (bytes_roundtrip rc e m Hwf) in Hd. exact (model_offsets rc p e m d x Hwf Hd Hx). Qed.
 Print Assumptions c14_bytes_unloaded_offsets.
 
+(* "Crash reason and crash address are the documented functions of the exception record, operating system and CPU", end to end from
+   the bytes: OS and CPU are the system info stream's platform id / processor architecture, the record is the exception stream's
+   (information[0..2], code, flags, parameter count, address); the crash address is information[1] for a Windows access violation /
+   in-page error with at least two parameters, the exception address otherwise, reduced mod 2^32 on 32-bit CPUs - with no range
+   hypothesis left: a serialized record has 64-bit fields.  (The crash reason of that record: c14_reason_is_source,
+   c14_windows_refinements_documented, c14_signals_documented.) *)
+Theorem c14_bytes_crash_address : forall rc e m d s x, wf_model e m = true -> dump_of_bytes rc (encode_dump e m) = Some d ->
+  m_sysinfo m = Some s -> m_exception m = Some x ->
+  let o := os_of_platform (si_platform s) in let c := cpu_of_arch (si_arch s) in
+  let ex := exception_of rc e (si_arch s) x in
+  d_platform d = si_platform s /\ d_arch d = si_arch s /\ d_exc d = Some ex /\
+  crash_address o c ex =
+    (let a := if os_eqb_windows o && ((ex_code x =? 3221225477) || (ex_code x =? 3221225478)) && (2 <=? ex_nparams x)
+              then nth 1 (ex_info x) 0 else ex_address x in
+     match pointer_width c with W32 => a mod two32 | _ => a end) /\
+  0 <= crash_address o c ex < two64.
+Proof. intros rc e m d s x Hwf Hd. rewrite (bytes_roundtrip rc e m Hwf) in Hd. exact (model_crash rc e m d s x Hwf Hd). Qed.
+Print Assumptions c14_bytes_crash_address.
+
 (* names are kept apart: the integer a UTF-16 name is carried as determines the name *)
 Theorem c14_names_injective : forall u1 u2,
   Forall (fun x => 0 <= x < 65536) u1 -> Forall (fun x => 0 <= x < 65536) u2 -> pack_units u1 = pack_units u2 -> u1 = u2.
